@@ -167,5 +167,12 @@ func VerifC13_ClientAuth() {
 	if !vc && !rc {
 		verif.Assert(mode == tls.NoClientCert, "no flags: no client certificate requested")
 	}
+	// the settings that concern the other direction or other features never change what is
+	// demanded of a client: insecure_skip (upstream verification), server_name, ALPN, ticket
+	is := verif.Bool("insecure_skip")
+	sn := []string{"", "a.b"}[verif.Choose("server_name", 2)]
+	alpn := []string{"", "h2"}[verif.Choose("alpn", 2)]
+	mode2 := (&defaultConfigHooks{}).GetClientAuth(&v2.TLSConfig{Status: true, VerifyClient: vc, RequireClientCert: rc, InsecureSkip: is, ServerName: sn, ALPN: alpn})
+	verif.Assert(mode2 == mode, "the client-auth mode depends on a setting other than verify_client / require_client_cert (insecure_skip, server_name, ALPN)")
 	verif.Cover("end")
 }
